@@ -2,12 +2,12 @@ package checks
 
 func init() {
 	Describe("C07", &PropInfo{
-		Rule: "grammars with 2-4 integer union fields, random tag assignment to tokens and nonterminals (some untagged), rules of length 0-14 (a dedicated family adds rules with 10-14 symbols whose actions use $10 and beyond; another repeats a production) and actions `$$ = (c0 + c1*$i + c2*$j ...) % 1000003` over the tagged positions with pairwise distinct prime coefficients; every token carries a distinct small value (function of its position and terminal) in its own field only; sampled sentences x five variants. Non-trivial = an accepted input whose tree contains a rule of length >= 3 using $n with n >= 2, an empty rule, and has depth >= 4; distinct by grammar text + input",
+		Rule: "grammars with 2-4 integer union fields, random tag assignment to tokens and nonterminals (some untagged), rules of length 0-14 (a dedicated family adds rules with 10-14 symbols whose actions use $10 and beyond; another repeats a production) and actions `$$ = (c0 + c1*$i + c2*$j ...) % 1000003` over the tagged positions with pairwise distinct prime coefficients (in the `plain-` families the actions are written without the recording call and most are the pure forwarding `$$ = $k` between possibly different fields; the tree then comes from the reference LALR(1) parser only); every token carries a distinct small value (function of its position and terminal) in its own field only; sampled sentences x five variants. Non-trivial = an accepted input whose tree contains a rule of length >= 3 using $n with n >= 2, an empty rule, and has depth >= 4; distinct by grammar text + input",
 		Assumptions: []string{
 			"reference: bottom-up evaluation (ref.Tree.Eval) of the abstract actions over the tree reconstructed from the C01-validated reduction sequence",
 			"values stay below 2^53 so Go ints and JavaScript numbers agree",
 		},
 		Explanation: "the field of the returned value selected by the start symbol's tag must equal the reference attribute evaluation",
 	})
-	tgUnit("C07", "values", []string{"productive", "lalr", "separators", "nullable", "prec", "longrule", "longrule", "dup"}, 36, 500, 4, 8, 60, 30)
+	tgUnit("C07", "values", []string{"productive", "lalr", "separators", "nullable", "prec", "longrule", "longrule", "dup", "plain-lalr", "plain-separators", "plain-productive"}, 36, 500, 4, 8, 60, 30)
 }
